@@ -41,6 +41,7 @@ func runC01(c *Ctx) {
 		phases []byte
 		tmo    time.Duration
 		kinds  []string
+		cancel bool // the context given to Connect is cancelled as soon as Connect has returned
 		manual bool // the application drives a bare RetryClient (own redial loop) instead of a ReconnectClient
 	}
 	base := env.FaultSet{LostClose: true, WriteErr: true, AckLost: true}
@@ -52,6 +53,7 @@ func runC01(c *Ctx) {
 		{name: "N2.F2", n: 2, bound: vrt.Budget{F: 2}, faults: env.FaultSet{LostClose: true, AckLost: true, ConnRefuse: true}, keep: []bool{true}, phases: []byte{'B', 'H'}, kinds: []string{"p1", "p2"}},
 		{name: "N2.F1.P1.S1", n: 2, bound: vrt.Budget{F: 1, P: 1, S: 1, Total: 2}, faults: env.FaultSet{LostClose: true, AckLost: true}, keep: []bool{true}, phases: []byte{'B', 'N'}, kinds: []string{"p1", "p2"}},
 		{name: "manual.N2.F1", n: 2, bound: vrt.Budget{F: 1}, faults: conn, keep: []bool{true, false}, phases: []byte{'B', 'N', 'O'}, kinds: []string{"p1", "p2", "sub"}, manual: true},
+		{name: "N2.F1.connect-ctx-cancelled", n: 2, bound: vrt.Budget{F: 1}, faults: base, keep: []bool{true}, phases: []byte{'S', 'N', 'O'}, kinds: []string{"p1", "p2", "sub", "unsub"}, cancel: true},
 		{name: "N1.F2.noconnack", n: 1, bound: vrt.Budget{F: 2}, faults: env.FaultSet{NoConnAck: true, LostClose: true, OnlyTypes: map[byte]bool{env.CONNECT: true, env.PUBLISH: true, env.SUBSCRIBE: true}}, keep: []bool{true}, phases: []byte{'B', 'S'}, tmo: 3 * time.Second, kinds: all},
 	}
 	if c.Thorough() {
@@ -62,6 +64,7 @@ func runC01(c *Ctx) {
 			{name: "N2.F1.P2.S1", n: 2, bound: vrt.Budget{F: 1, P: 2, S: 1, Total: 3}, faults: base, keep: []bool{true}, phases: []byte{'B', 'N', 'O'}, kinds: []string{"p1", "p2", "sub"}},
 			{name: "manual.N2.F2", n: 2, bound: vrt.Budget{F: 2}, faults: conn, keep: []bool{true, false}, phases: []byte{'B', 'S', 'N', 'O'}, kinds: all, manual: true},
 			{name: "manual.N2.F1.P1.S1", n: 2, bound: vrt.Budget{F: 1, P: 1, S: 1, Total: 2}, faults: base, keep: []bool{true}, phases: []byte{'B', 'N', 'O'}, kinds: []string{"p1", "p2", "sub"}, manual: true},
+			{name: "N2.F2.connect-ctx-cancelled", n: 2, bound: vrt.Budget{F: 2}, faults: conn, keep: []bool{true, false}, phases: []byte{'B', 'S', 'N', 'O', 'H'}, kinds: all, cancel: true},
 			{name: "N2.F2.noconnack", n: 2, bound: vrt.Budget{F: 2}, faults: env.FaultSet{NoConnAck: true, LostClose: true, AckLost: true}, keep: []bool{true}, phases: []byte{'B', 'S'}, tmo: 3 * time.Second, kinds: all},
 		}
 	}
@@ -80,7 +83,7 @@ func runC01(c *Ctx) {
 					Bound: f.bound,
 					Cfg:   vrt.Config{Horizon: int64(300 * time.Second)},
 					Body: func() {
-						rcExecuteInto(&rcCfg{Reqs: reqs, Faults: f.faults, KeepSession: keep, ConnTimeout: f.tmo, Manual: f.manual}, &run)
+						rcExecuteInto(&rcCfg{Reqs: reqs, Faults: f.faults, KeepSession: keep, ConnTimeout: f.tmo, Manual: f.manual, CancelConnectCtx: f.cancel}, &run)
 						c01Oracle(run)
 					},
 					Observe: func() uint64 { return run.net.TraceHash() },
